@@ -72,8 +72,20 @@ func vobPayload(s string) *commonpb.Payload {
 }
 
 // build realises path[i:] below message m; the last element is the leaf.
+// vobFill: when non-empty, every other namespace-name field (descriptor rule) of the messages along the path is set to it,
+// so that an access-control verdict is decided by the leaf under test and not by empty sibling names.
+var vobFill string
+
 func vobBuild(m protoreflect.Message, path []string, leafKind, value string) error {
 	md := m.Descriptor()
+	if vobFill != "" {
+		for i := 0; i < md.Fields().Len(); i++ {
+			f := md.Fields().Get(i)
+			if ns, _, _ := vscClassify(md, f); ns && string(f.Name()) != path[0] {
+				m.Set(f, protoreflect.ValueOfString(vobFill))
+			}
+		}
+	}
 	fd := md.Fields().ByName(protoreflect.Name(path[0]))
 	if fd == nil {
 		return fmt.Errorf("no field %s in %s", path[0], md.FullName())
@@ -306,7 +318,10 @@ func vobRunACL(tr *TranslationInterceptor, acl *AccessControlInterceptor, ob vob
 		rec["err"] = "build: " + err.Error()
 		return rec
 	}
-	if err := vobBuild(m, ob.Path, ob.Leaf, ob.Value); err != nil {
+	vobFill = "ns-allowed"
+	err = vobBuild(m, ob.Path, ob.Leaf, ob.Value)
+	vobFill = ""
+	if err != nil {
 		rec["err"] = "build: " + err.Error()
 		return rec
 	}
